@@ -256,3 +256,11 @@ package fscache
 //@   ensures err == nil ==> forall(k, len(rr.0) <= k && k < len(result) ==> forall(j, 0 <= j && j < len(rr.0) ==> Name(result[k]) != Name(rr.0[j])))
 //@   loop 1 invariant remoteDirs == rr.0 && bufferDirs == br.0 && (rr.1 == nil || br.1 == nil)
 //@   loop 2 invariant remoteDirs == rr.0 && bufferDirs == br.0 && (rr.1 == nil || br.1 == nil)
+
+// the constructors establish the cache invariant every method relies on
+//@ func newCache [C06 C07]
+//@   requires bufferFS != nil && remoteFS != nil && bufferFS != remoteFS
+//@   ensures result != nil && CInv(result) && result.bufferFS == bufferFS && result.remoteFS == remoteFS
+//@ func NewMemCache [C06 C07]
+//@   requires remoteFS != nil
+//@   ensures err == nil ==> c != nil && CInv(c) && c.remoteFS == remoteFS
